@@ -343,6 +343,8 @@ class Interp:
             return _smap().unchanged_except(self, a, b, [])
         if isinstance(a, _smap().SSet) and isinstance(b, _smap().SSet):
             return _smap().sset_eq(self, a, b)
+        if isinstance(a, _smap().SList) or isinstance(b, _smap().SList):
+            return _smap().slist_eq(self, a, b)
         if isinstance(a, _smap().SColl) and isinstance(b, _smap().SColl):
             if a.oid != b.oid:
                 return False
@@ -358,7 +360,8 @@ class Interp:
     # operators
     # ------------------------------------------------------------------
     def binop(self, op, a, b):
-        if not isinstance(a, Sym) and not isinstance(b, Sym) and not isinstance(a, SObj) and not isinstance(b, SObj):
+        if not isinstance(a, Sym) and not isinstance(b, Sym) and not isinstance(a, SObj) and not isinstance(b, SObj) \
+                and type(a).__name__ != "SList":
             return self._native_binop(op, a, b)
         # bytes
         if is_byteslike(a) and is_byteslike(b):
@@ -368,6 +371,8 @@ class Interp:
             raise Unsupported(f"bytes op {type(op).__name__}")
         if isinstance(a, (tuple, list)) and isinstance(b, (tuple, list)) and isinstance(op, ast.Add):
             return a + b
+        if isinstance(a, _smap().SList) and isinstance(b, list) and isinstance(op, ast.Add):
+            return _smap().SList(a.name, a.base, a.tail + b)
         if isinstance(a, SOpt) or isinstance(b, SOpt):
             a = self.unwrap_opt(a, "operand")
             b = self.unwrap_opt(b, "operand")
@@ -711,6 +716,8 @@ class Interp:
             if isinstance(item, SEnum) and item.cls is container:
                 return _or([item.v == enum_to_int(m) for m in enum_members(container)])
             return item in container
+        if isinstance(container, SObj) and isinstance(container.cls, ExtClass) and "__contains__" in container.cls.methods:
+            return self.formula(container.cls.methods["__contains__"].apply(self, container, [item], {}))
         if not _has_sym(item):
             try:
                 return item in container
@@ -848,6 +855,13 @@ class Interp:
             if name == "name":
                 return self.enum_name(obj)
             return self.class_attr(obj.cls, name, obj)
+        if isinstance(obj, Opaque) and obj.kind != "str" and name == "serialize":
+            # wire image of an opaque wire value (a key, an EUI64): an uninterpreted function of the value
+            from .calls import Model
+
+            img = SBytes(z3.Function("wire_image", OpaqueSort, ByteSeq)(obj.t))
+            self.ctx.assumptions_used.add("external:<wire value>.serialize (uninterpreted function of the value)")
+            return Model("wire.serialize", lambda I, a, k: img)
         if isinstance(obj, Opaque) and obj.kind == "str" and name in ("upper", "lower", "strip"):
             f = z3.Function(f"str_{name}", OpaqueSort, OpaqueSort)
             r = Opaque(f(obj.t), "str")
@@ -862,6 +876,8 @@ class Interp:
             return BoundMethod(("sdict", name), obj, f"dict.{name}")
         if isinstance(obj, _smap().SMap):
             return BoundMethod(("smap", name), obj, f"dict.{name}")
+        if isinstance(obj, _smap().SList):
+            return BoundMethod(("slist", name), obj, f"list.{name}")
         if isinstance(obj, _smap().SColl):
             return BoundMethod(("scoll", name), obj, f"list.{name}")
         if isinstance(obj, _smap().SSet):
@@ -943,6 +959,8 @@ class Interp:
                 raise PyRaise(mk_exc(dataclasses.FrozenInstanceError, f"cannot assign to field '{name}'"))
             if self.frame_check is not None:
                 self.frame_check(obj, name)
+            if self.write_hook is not None and obj is getattr(self, "self_obj", None):
+                self.write_hook(obj, name, value)
             self._attach_promise(obj, name, value)
             obj.fields[name] = value
             return
@@ -967,6 +985,7 @@ class Interp:
             value.ghost["promise"] = pr
 
     frame_check = None
+    write_hook = None
     frame_check_map = None
     entry_old_view = None
 
@@ -1360,7 +1379,19 @@ class Interp:
         for kv in self._comprehension(node.generators, ast.Tuple(elts=[node.key, node.value], ctx=ast.Load()), env):
             k, v = kv
             if isinstance(k, Sym):
-                raise Unsupported("dict comprehension with symbolic key")
+                # symbolic keys are fine as long as every pair of keys is decided (equal / distinct) on this path:
+                # the dict then has a concrete spine, keyed by the engine values themselves
+                same = None
+                for k0 in out:
+                    eq = self.formula(self.eq(k, k0))
+                    if eq is True or (not isinstance(eq, bool) and self.ctx.prove(_z(eq))):
+                        same = k0
+                        break
+                    if eq is False or self.ctx.prove(z3.Not(_z(eq))):
+                        continue
+                    raise Unsupported("dict comprehension with symbolic keys whose equality is undecided")
+                if same is not None:
+                    k = same
             out[k] = v
         return out
 
@@ -1407,6 +1438,8 @@ class Interp:
             raise Unsupported(f"iteration over {type(v).__name__}")
         if isinstance(v, enum.EnumMeta):
             return list(v)
+        if isinstance(v, SObj) and isinstance(v.cls, ExtClass) and "__iter__" in v.cls.methods:
+            return list(v.cls.methods["__iter__"].apply(self, v, [], {}))
         if isinstance(v, SObj):
             raise Unsupported("iteration over object")
         try:
@@ -1447,7 +1480,14 @@ class Interp:
                 fa = self.formula(a)
                 if fa is False:
                     return True
-                b = self.eval(node.args[1], env)
+                try:
+                    b = self.eval(node.args[1], env)
+                except Unsupported:
+                    # the consequent cannot be evaluated on this path (e.g. it looks up a map key whose identity
+                    # this path never decided): fine if the antecedent is false on this path anyway
+                    if self.fmode and not isinstance(fa, bool) and self.ctx.prove(z3.Not(_z(fa))):
+                        return True
+                    raise
                 return self.call(self.builtins["implies"], [a, b], {})
         fn = self.eval(f, env)
         args = []
@@ -1762,7 +1802,12 @@ class Interp:
         self.exec_block(node.orelse, env)
 
     def s_AsyncFor(self, node, env):
-        raise Unsupported("async for")
+        if self.loop_handler is None:
+            raise Unsupported("async for without a loop rule")
+        r = self.loop_handler(self, node, env)
+        if r is NotImplemented:
+            raise Unsupported("async for")
+        return r
 
     def match_handler(self, h, exc, env):
         if h.type is None:
@@ -1976,7 +2021,7 @@ def _kind(v):
 
 
 def _has_sym(v, depth=0):
-    if isinstance(v, (Sym, SObj, SFuture, SDict)) or type(v).__name__ in ("SMap", "SColl", "View", "SSet"):
+    if isinstance(v, (Sym, SObj, SFuture, SDict)) or type(v).__name__ in ("SMap", "SColl", "View", "SSet", "SList"):
         return True
     if depth > 4:
         return False
